@@ -520,6 +520,21 @@ def r6_selected_buffer_adopted(r, facts):
             hit = f.forward_paths_hit([Loc(some[1], 0)], f.returns(), blockers=adopt)
             key = re.sub(r'<.*', '', f.path.split(' as ')[0].lstrip('<')).split('::')[-1] + '::' + f.path.split('::')[-1]
             r.require(hit is None, 'adopt:%s' % key, 'a completion that names a pool buffer (buf_id() is Some) can be decoded without giving that buffer to a ReadBuf (an extra condition sits between the id and buffer_init/new_buffer): the kernel-selected buffer has no owner and is never offered again', f.where(hit[0]) if hit else f.where(l))
+    # decoders that hand the completion to another decoder checked above (`RecvOp::map_ok` = `ReadOp::map_ok`) count with it
+    checked = {f.path for f in facts.func_list if f.kind != 'closure' and any((t.get('callee') or '') == 'io_uring::op::CompletionFlags::buf_id' for _, t in f.calls())}
+    for f in facts.func_list:
+        if f.kind == 'closure' or f.path in checked or not (f.path.endswith('::map_ok') or f.path.endswith('::map_next')):
+            continue
+        for l, t in f.calls():
+            if (t.get('resolved') or '') in checked and not f.blocks[l[0]]['cleanup']:
+                n += 1
+                r.inst('%s delegates to %s' % (f.path, t.get('resolved')), f.where(l))
+                hit = f.forward_paths_hit([Loc(0, 0)], f.returns(), blockers=[l])
+                r.require(hit is None, 'adopt:%s/delegation' % f.path.split('::')[-2 if f.path.count('::') else 0], 'a path through the decoder skips the decoder it delegates to', f.where(l))
+                # ... and hands it the completion it was given itself: every argument is the parameter at the same position
+                from .kernel import not_passed_through
+                for i_, e_ in [x_ for x_ in not_passed_through(f, t) if x_[0] > 0]:
+                    r.require(False, 'adopt:%s/delegation-args' % re.sub(r'<.*', '', f.path.split(' as ')[0].lstrip('<')).split('::')[-1], 'argument %d handed to the decoder delegated to is not the one this decoder received (%s): the sibling decodes a different completion' % (i_, str(e_)[:100]), f.where(l))
     r.floor(5, 'decoders with a buffer id')
 
 
